@@ -95,26 +95,24 @@ def build_compound(mask, kind):
     Money = money()
     w = World(catalogue=True)
     for c in CUR:
-        w.apply(['cur', c])
+        w.must(['cur', c])
     if kind == 'mass':
-        res = w.apply(['dtype', 'PPX', [['Money', 1], ['Mass', -1]], None,
+        res = w.must(['dtype', 'PPX', [['Money', 1], ['Mass', -1]], None,
                        None])
         den = {'kg': 'kg', 'g': 'g'}
     elif kind == 'length':
-        res = w.apply(['dtype', 'PPX', [['Money', 1], ['Length', -1]], None,
+        res = w.must(['dtype', 'PPX', [['Money', 1], ['Length', -1]], None,
                        None])
         den = {'kg': 'm', 'g': 'mm'}
     else:
-        res = w.apply(['dtype', 'PPX', [['Money', 1], ['Duration', -2]],
+        res = w.must(['dtype', 'PPX', [['Money', 1], ['Duration', -2]],
                        None, None])
         den = {'kg': 's', 'g': 'ms'}
-    assert res[0] == 'ok', res
     declared = []
     for i, (c, d) in enumerate(COMPOUND_UNITS):
         if mask >> i & 1:
             sym = f"{c}/{den[d]}" + ('²' if kind == 'dur2' else '')
-            r = w.apply(['unit', 'PPX', sym, ['derive', [c, den[d]]]])
-            assert r[0] == 'ok', r
+            w.must(['unit', 'PPX', sym, ['derive', [c, den[d]]]])
             declared.append(sym)
     return w, declared
 
